@@ -468,6 +468,11 @@ func (f *frame) applyContract(fc *FuncC, pkg *types.Package, pnames, rnames []st
 		g := f.transBool(r.Expr, env)
 		f.obligeClause(st, "pre", label+":"+r.Text, g, r, in.Pos())
 	}
+	for _, pc := range fc.Ensures {
+		if pc.Kind == "panics" && f.eng().clauseActive(pc) {
+			f.obligeClause(st, "pre", label+":does not panic:"+pc.Text, not(f.transBool(pc.Expr, env)), pc, in.Pos())
+		}
+	}
 	pre := st.clone()
 	// frame
 	inferred := false
@@ -758,7 +763,7 @@ func (f *frame) callsiteBefore(cs *CallsiteC, c *ssa.CallCommon, args []TV, st *
 }
 
 func (f *frame) callsiteAfter(cs *CallsiteC, c *ssa.CallCommon, args []TV, res TV, st *bstate, label string, in ssa.Instruction) {
-	if len(cs.After) == 0 {
+	if len(cs.After) == 0 && len(cs.Assume) == 0 {
 		return
 	}
 	env := f.callEnv(c, args, st)
@@ -773,6 +778,13 @@ func (f *frame) callsiteAfter(cs *CallsiteC, c *ssa.CallCommon, args []TV, res T
 	}
 	for _, ga := range cs.After {
 		f.ghostAssign(ga, env, st)
+	}
+	for _, a := range cs.Assume {
+		if !f.eng().clauseActive(a) {
+			continue
+		}
+		f.assume(st, f.transBool(a.Expr, env))
+		f.vc.note("assumed at call site " + label + ": " + a.Text)
 	}
 }
 
